@@ -43,6 +43,19 @@ CLAIMED = {
         note="frames with SType outside the E37 table and PType != 0 are outside the property; partitions of long streams are "
              "sampled",
         design="5/C04"),
+    "C09": dict(
+        technique="implementation-shaped TLA+ model HsmsClose (threads as processes; safety + liveness by TLC) + fault "
+                  "scenarios at every byte offset executed on the real endpoint under a deterministic scheduler with wedge "
+                  "detection, records validated by TLC (CloseJudge)",
+        text="TLC checks that the close sequence as coded always finishes and ends clean for every cut of the inbound stream "
+             "and every interleaving of connection, receiver and application thread (the original blocking loop is kept as a "
+             "regression witness that TLC must refute). The real endpoint is driven through every byte offset of four streams "
+             "x session state x {peer close, disable(), reconnect+select} under fifo/PCT/random schedules; virtual time makes "
+             "'blocked forever' observable; each scenario record is validated by TLC.",
+        note="FakeConnection mirrors TcpConnection's close sequence; kernel TCP behaviour is not part of this check; "
+             "schedules sampled",
+        category="fault_enumeration",
+        design="5/C09"),
 }
 
 NOT_YET = "check not built yet in this round (specification and harness in progress; see DESIGN.md section 9)"
